@@ -354,6 +354,24 @@ def c11_sites(repo_root, tier):
                 if isinstance(call, ast.Call) and isinstance(call.func, ast.Name) and call.func.id == "Identifier" and call.args and isinstance(call.args[0], ast.Constant):
                     consts.add(call.args[0].value)
             bad = sorted(flds - run_fields) + sorted(x for x in consts if x not in run_strings)
+            # a name put in scope by its literal spelling ("forloop") is bound by render whenever the *node* says so: every store of it
+            # in render sits under conditions on the node alone - a store that also depends on the data (isinstance(val, Sequence))
+            # means the name is sometimes not bound, and then it reads the outer / global variable of that name
+            for k in sorted(consts):
+                stores = []
+                for r in run:
+                    rfn = meth[r][2]
+                    for st in ast.walk(rfn):
+                        if isinstance(st, ast.Assign) and len(st.targets) == 1 and isinstance(st.targets[0], ast.Subscript) and isinstance(st.targets[0].slice, ast.Constant) \
+                                and st.targets[0].slice.value == k:
+                            data_guard = False
+                            for g in ast.walk(rfn):
+                                if isinstance(g, ast.If) and any(x is st for b in g.body for x in ast.walk(b)):
+                                    if any(isinstance(n, ast.Name) and n.id not in ("self", "isinstance", "Sequence", "str", "len") for n in ast.walk(g.test)):
+                                        data_guard = True
+                            stores.append(data_guard)
+                if stores and all(stores):
+                    bad.append(f"{k!r} (bound by render only when the data has a certain shape)")
             _ob(obs, f"{m.name}:{c.name}.{sm}/site.scope-names-are-bound-by-render", not bad,
                 f"{sm}() names {sorted(flds) + sorted(consts)}; all of them are read/bound by render" if not bad
                 else f"{sm}() puts {bad} in scope but render never touches it: a name that is never bound would hide a global",
@@ -419,6 +437,14 @@ def c11_sites(repo_root, tier):
                         if isinstance(a, ast.Attribute) and isinstance(a.value, ast.Attribute) and isinstance(a.value.value, ast.Name) and a.value.value.id == "self" \
                                 and a.attr not in ("children", "expressions"):
                             bad.append(f"`{ast.unparse(g.test)}` (line {g.lineno})")
+                    # ... or another field of the node decides it (`if not self.required: yield self.block`): a guard on self.<f> may
+                    # only protect the report of that same self.<f>
+                    tested = _self_attrs(g.test)
+                    reported = set()
+                    for st in body:
+                        reported |= _self_attrs(st)
+                    if tested - reported:
+                        bad.append(f"`{ast.unparse(g.test)}` (line {g.lineno}) tests self.{sorted(tested - reported)[0]}, which is not what is reported under it")
             if any(isinstance(g, (ast.If, ast.IfExp)) for g in ast.walk(fn)):
                 _ob(obs, f"{m.name}:{c.name}.{rep}/site.reported-whenever-present", not bad,
                     "parts are reported under presence tests only" if not bad
